@@ -408,6 +408,12 @@ def fam_ws(tier, seed):
         g.alpha = alpha
         g.maxlen = (maxlen if len(alpha) <= 4 else 3) if tier != "quick" else (3 if len(alpha) <= 4 else 3)
         add_extras(g, rnd, 10 if tier == "quick" else 60, 4, 7)
+        # long whitespace runs (real runs only): hidden state in the whitespace skipper would show here
+        if " " in alpha and name.split("_")[0] not in ("dotws",):
+            toks = [c for c in alpha if c not in (" ", "\n", "\t", "\r", "\x0b", "\x0c", "#")][:2] or ["a"]
+            for k in (4, 5, 7, 9):
+                g.real_extra.append(list(toks[0] + " " * k + toks[-1] + " " * (k + 1) + toks[0]))
+                g.real_extra.append(list(" " * (k + 2) + toks[0] + toks[-1]))
         if well_formed(g):
             out.append(g)
     return out
@@ -1098,6 +1104,11 @@ def fam_routes(tier, seed):
     mk("includes", [Rule("S", Seq(Inc("Pair"), Clo(Seq(Lit(","), Inc("Pair")))), export=True),
                     Rule("Pair", Seq(Call("K", "k"), Lit(":"), Call("V", "v"))), Rule("K", Lit("k")), Rule("V", Lit("v"))],
        ["k", "v", ":", ",", " "], maxlen=3)
+    mk("multi_enum_fields", [Rule("S", Seq(Choice(Call("Xx", "a"), Call("Yy", "a")), Choice(Call("Xx", "b"), Call("Yy", "b")),
+                                           Clo(Choice(Call("Xx", "c"), Call("Yy", "c"), Call("char", "c"))),
+                                           Opt(Choice(Call("Yy", "d", boxed=True), Call("Xx", "d")))), export=True),
+                             Rule("T", Seq(Choice(Call("Xx", "p"), Call("Yy", "p")), Choice(Call("Yy", "q"), Call("Xx", "q")))),
+                             Rule("Xx", Lit("x")), Rule("Yy", Lit("y"))], ["x", "y", " "])
     mk("keywords", [Rule("S", Seq(Call("type", "fn"), Opt(Call("match", "loop"))), export=True),
                     Rule("type", Lit("t")), Rule("match", Lit("m"))], ["t", "m", " "])
     return out
@@ -1143,7 +1154,9 @@ def fam_types(tier, seed):
     kinds = [
         ("kinds", [Rule("S", Seq(Call("Str", "a"), Call("StrPos", "b"), Call("Cls", "c"), Call("ExtS", "d"), Call("ExtC", "e"),
                              Call("Unit", "f"), Call("Pos", "g"), Call("OvS", "h"), Call("OvE", "i"), Call("OvB", "j"), Call("OvO", "k"),
-                             Call("OvV", "l"), Call("char", "m")), export=True),
+                             Call("OvV", "l"), Call("char", "m"), Call("StrOv", "n"), Call("StrFld", "o")), export=True),
+                   Rule("StrOv", Seq(Opt(Lit("-")), Call("Unit", "@")), string=True),
+                   Rule("StrFld", Seq(Call("Unit", "x"), Clo(Call("Str", "y"))), string=True),
                    Rule("Str", Lit("a"), string=True), Rule("StrPos", Lit("a"), string=True, position=True),
                    CharRule("Cls", [("lit", "a")]),
                    ExternRule("ExtS", {"o": "digits", "path": P + "ext_digits", "nullable": False}),
@@ -1289,7 +1302,7 @@ def meta_sources():
                                         Seq(Neg(Lit("x")), Pos(Seq(Lit("y"), Call("char"))), Inc("T")), Seq()), export=True),
                        Rule("T", Seq(Call("char", "c"), Lit("\n\t\\'\"é\x7f", ci=False)))]),
         Grammar("m2", [Rule("S", Seq(Call("K", "k"), Call("E", "e"), Call("X", "x")), export=True, checks=[chk("one"), chk("two")]),
-                       CharRule("K", [("range", "a", "f"), ("lit", "_"), ("ref", "K2")], checks=[chk("kc")]),
+                       CharRule("K", [("range", "a", "f"), ("lit", "_"), ("ref", "K2")], checks=[chk("kc"), chk("kd"), chk("ke")]),
                        CharRule("K2", [("lit", "é"), ("range", "0", "9")]),
                        ExternRule("E", {"o": "unknown", "path": P + "ext", "ret": None, "nullable": True}),
                        ExternRule("X", {"o": "unknown", "path": "crate::Point::parse", "ret": "crate::Point", "nullable": True})]),
